@@ -4,7 +4,7 @@
 From Coq Require Import List ZArith QArith Qcanon Bool Arith.
 From Dimod Require Import Base.Util Model.Poly Model.View Model.Hist Model.ChkC04
   Proofs.PolyFacts Proofs.ViewFacts Proofs.HistFacts Proofs.HistWf Proofs.HistWf2 Proofs.HistAtomic
-  Proofs.HistContract Proofs.HistAtomicQM Gen.Gen_QmLimits Gen.Gen_RelabelRules Proofs.HistGenTie Proofs.HistBackends.
+  Proofs.HistContract Proofs.HistAtomicQM Proofs.HistQmAtomic Proofs.HistQmPres Proofs.HistLoops Proofs.HistBqmReach Proofs.HistViewStep Proofs.HistViewStep2 Gen.Gen_ViewWrites Proofs.HistGenTie2 Gen.Gen_QmLimits Gen.Gen_RelabelRules Proofs.HistGenTie Proofs.HistBackends.
 From Dimod Require Model.Adj Proofs.AdjFacts.
 Import ListNotations.
 Open Scope Qc_scope.
@@ -120,6 +120,71 @@ Theorem C04_view_add_linear_energy :
     energy (view_add_linear d v b base) y = energy base y + b * view_value d (y v).
 Proof. exact view_add_linear_energy. Qed.
 Print Assumptions C04_view_add_linear_energy.
+
+(* the same at the level of the public call (`step`), for a handle that really translates (vdir_of h s = Some d):
+   the call succeeds and the base energy grows by the term in the view's variables; assigning the view's
+   offset makes the view show exactly that offset *)
+Theorem C04_view_step_add_linear :
+  forall h d v b s y, B s -> vdir_of h s = Some d ->
+    snd (step s (h, OAddLinear v b)) = Ok /\
+    energy (st_poly (fst (step s (h, OAddLinear v b)))) y = energy (st_poly s) y + b * view_value d (y v).
+Proof. exact view_step_add_linear. Qed.
+Print Assumptions C04_view_step_add_linear.
+
+Theorem C04_view_step_add_quadratic :
+  forall h d u v b s y, B s -> vdir_of h s = Some d -> u <> v ->
+    snd (step s (h, OAddQuadratic u v b)) = Ok /\
+    energy (st_poly (fst (step s (h, OAddQuadratic u v b)))) y
+    = energy (st_poly s) y + b * view_value d (y u) * view_value d (y v).
+Proof. exact view_step_add_quadratic. Qed.
+Print Assumptions C04_view_step_add_quadratic.
+
+Theorem C04_view_step_set_offset :
+  forall h d b s y, vdir_of h s = Some d ->
+    snd (step s (h, OSetOffset b)) = Ok /\
+    h_get_offset h s = energy (st_poly s) (fun _ => match d with BinOverSpin => - (1) | SpinOverBin => half end) /\
+    energy (st_poly (fst (step s (h, OSetOffset b)))) y = energy (st_poly s) y - h_get_offset h s + b /\
+    h_get_offset h (fst (step s (h, OSetOffset b))) = b.
+Proof. exact view_step_set_offset. Qed.
+Print Assumptions C04_view_step_set_offset.
+
+(* set_quadratic through a translating handle makes the VIEW's coefficient of (u, v) equal to b (kqm d b on the base,
+   vscale back), whatever it was; remove_interaction removes exactly the view's term *)
+Theorem C04_view_step_set_quadratic :
+  forall h d u v b s y, B s -> wf s -> vdir_of h s = Some d -> u <> v ->
+    snd (step s (h, OSetQuadratic u v b)) = Ok /\
+    energy (st_poly (fst (step s (h, OSetQuadratic u v b)))) y
+    = energy (st_poly s) y + (b - vscale h s (quad s u v)) * view_value d (y u) * view_value d (y v) /\
+    quad (fst (step s (h, OSetQuadratic u v b))) u v = kqm d b /\
+    hasq (fst (step s (h, OSetQuadratic u v b))) u v = true.
+Proof. exact view_step_set_quadratic. Qed.
+Print Assumptions C04_view_step_set_quadratic.
+
+Theorem C04_view_step_remove_interaction :
+  forall h d u v s y, B s -> wf s -> vdir_of h s = Some d -> u <> v ->
+    has_var s u = true -> has_var s v = true -> hasq s u v = true ->
+    snd (step s (h, ORemoveInteraction u v)) = Ok /\
+    energy (st_poly (fst (step s (h, ORemoveInteraction u v)))) y
+    = energy (st_poly s) y - vscale h s (quad s u v) * view_value d (y u) * view_value d (y v) /\
+    hasq (fst (step s (h, ORemoveInteraction u v))) u v = false.
+Proof. exact view_step_remove_interaction. Qed.
+Print Assumptions C04_view_step_remove_interaction.
+
+(* set_linear through a translating handle: afterwards the VIEW's linear bias of v (which involves the sum over v's
+   neighbourhood on the base) is exactly b *)
+Theorem C04_view_step_set_linear :
+  forall h d v b s y, B s -> vdir_of h s = Some d -> has_var s v = true ->
+    snd (step s (h, OSetLinear v b)) = Ok /\
+    energy (st_poly (fst (step s (h, OSetLinear v b)))) y
+    = energy (st_poly s) y + (b - opt0 (h_get_linear h v s)) * view_value d (y v) /\
+    h_get_linear h v (fst (step s (h, OSetLinear v b))) = Some b.
+Proof. exact view_step_set_linear. Qed.
+Print Assumptions C04_view_step_set_linear.
+
+Theorem C04_view_scale_roundtrip :
+  forall h d s b, vdir_of h s = Some d -> vscale h s (kqm d b) = b /\ kqm d (vscale h s b) = b.
+Proof. intros h d s b D. split; [apply vscale_kqm; exact D|apply kqm_vscale; exact D]. Qed.
+Print Assumptions C04_view_scale_roundtrip.
 
 (* ---------- a raising call changes nothing ---------- *)
 (* `atomic o`: every call except the documented loops (add_linear_from, add_quadratic_from,
@@ -293,6 +358,82 @@ Theorem C04_qm_flip_refuted :
 Proof. exact flip_qm_refuted. Qed.
 Print Assumptions C04_qm_flip_refuted.
 
+(* ---------- QuadraticModel: EVERY atomic call, in every reachable state ---------- *)
+(* invariant qm_inv: QM kind, well formed, no interaction mentions a REAL variable (what add_quadratic / set_quadratic
+   enforce while dimod.REAL_INTERACTIONS is False).  In a state satisfying qm_inv every atomic call (all but the
+   documented *_from loops) that raises leaves the model unchanged - flip_variable, scale with ignored sets and
+   fix_variable included: their loops over existing interactions cannot raise. *)
+Theorem C04_qm_failed_op_is_noop :
+  forall s o e, Q s -> wf s -> no_real_inter s -> atomic o = true ->
+    snd (step s (Direct, o)) = Raised e -> fst (step s (Direct, o)) = s.
+Proof. exact failed_op_is_noop_qm. Qed.
+Print Assumptions C04_qm_failed_op_is_noop.
+
+(* qm_inv is preserved by every call (the looping ones included); the operand of update(other) must itself be
+   well formed and free of REAL interactions - exactly what open finding d9 violates by toggling the flag *)
+Theorem C04_qm_invariant_step :
+  forall s o, op_ok_qm o -> qm_inv s -> qm_inv (fst (step s (Direct, o))).
+Proof. exact qm_inv_step. Qed.
+Print Assumptions C04_qm_invariant_step.
+
+Theorem C04_qm_invariant_empty : qm_inv (mkSt None [] pzero).
+Proof. exact I_clear. Qed.
+Print Assumptions C04_qm_invariant_empty.
+
+(* the two executable tests the check evaluates on every state a history reaches establish the invariant *)
+Theorem C04_qm_checked_state_is_good : forall s, Q s -> wfb s = true -> nrib s = true -> qm_inv s.
+Proof. exact checked_state_is_good. Qed.
+Print Assumptions C04_qm_checked_state_is_good.
+
+(* hence: after ANY history of calls on a QuadraticModel, a raising atomic call is a no-op *)
+Theorem C04_qm_reachable_failed_op_is_noop :
+  forall s l o e, qm_inv s -> qm_hist_ok l -> atomic o = true ->
+    snd (step (run s l) (Direct, o)) = Raised e -> fst (step (run s l) (Direct, o)) = run s l.
+Proof. exact qm_reachable_failed_op_is_noop. Qed.
+Print Assumptions C04_qm_reachable_failed_op_is_noop.
+
+(* ---------- the documented loops: a raising call keeps exactly the effect of a successful prefix ---------- *)
+(* `take_op k o` is the same call on the first k elements of its argument.  If add_linear_from /
+   add_quadratic_from / remove_variables_from / remove_interactions_from (base object or any view handle)
+   raises, the model is left exactly as the call on a proper prefix - which succeeds - leaves it: the loop
+   stopped at the first offending element and that element changed nothing. *)
+Theorem C04_failed_loop_keeps_prefix :
+  forall s h o e, B s -> wf s -> bqm_loop o = true -> snd (step s (h, o)) = Raised e ->
+    exists k, (k < arg_length o)%nat /\ snd (step s (h, take_op k o)) = Ok
+              /\ fst (step s (h, o)) = fst (step s (h, take_op k o)).
+Proof. exact failed_loop_keeps_prefix_bqm. Qed.
+Print Assumptions C04_failed_loop_keeps_prefix.
+
+(* the same for all six loops of a QuadraticModel (add_variables_from and add_linear_from with defaults included) *)
+Theorem C04_qm_failed_loop_keeps_prefix :
+  forall s o e, qm_inv s -> atomic o = false -> snd (step s (Direct, o)) = Raised e ->
+    exists k, (k < arg_length o)%nat /\ snd (step s (Direct, take_op k o)) = Ok
+              /\ fst (step s (Direct, o)) = fst (step s (Direct, take_op k o)).
+Proof. exact failed_loop_keeps_prefix_qm. Qed.
+Print Assumptions C04_qm_failed_loop_keeps_prefix.
+
+(* ---------- whole histories of a BinaryQuadraticModel ---------- *)
+(* `B s /\ wf s` is preserved by every call, on the base object or through any (fresh or stale) view handle;
+   so after ANY history a raising atomic call is a no-op and a raising loop keeps a successful prefix *)
+Theorem C04_bqm_invariant_step :
+  forall s h o, op_ok_bqm o -> B s /\ wf s -> B (fst (step s (h, o))) /\ wf (fst (step s (h, o))).
+Proof. exact bqm_inv_step. Qed.
+Print Assumptions C04_bqm_invariant_step.
+
+Theorem C04_bqm_reachable_failed_op_is_noop :
+  forall s l h o e, B s -> wf s -> bqm_hist_ok l -> atomic o = true -> op_ok_bqm o ->
+    snd (step (run s l) (h, o)) = Raised e -> fst (step (run s l) (h, o)) = run s l.
+Proof. exact bqm_reachable_failed_op_is_noop. Qed.
+Print Assumptions C04_bqm_reachable_failed_op_is_noop.
+
+Theorem C04_bqm_reachable_failed_loop_keeps_prefix :
+  forall s l h o e, B s -> wf s -> bqm_hist_ok l -> bqm_loop o = true ->
+    snd (step (run s l) (h, o)) = Raised e ->
+    exists k, (k < arg_length o)%nat /\ snd (step (run s l) (h, take_op k o)) = Ok
+              /\ fst (step (run s l) (h, o)) = fst (step (run s l) (h, take_op k o)).
+Proof. exact bqm_reachable_failed_loop_keeps_prefix. Qed.
+Print Assumptions C04_bqm_reachable_failed_loop_keeps_prefix.
+
 (* ---------- ties to the source ---------- *)
 Theorem C04_limits_from_source :
   forall vt, dflt_lb vt = gen_dflt_lb vt /\ dflt_ub vt = gen_dflt_ub vt /\ vt_min vt = gen_vt_min vt /\ vt_max vt = gen_vt_max vt.
@@ -371,6 +512,17 @@ Theorem C04_resize_raises_iff :
     snd (step s (h, OResize n fresh)) = (if gen_resize_raises n then Raised BValue else Ok).
 Proof. exact resize_raises_iff. Qed.
 Print Assumptions C04_resize_raises_iff.
+
+(* the alternative spellings of an edit (linear[v] = b, del quadratic[u, v], adj[u][v] = b, model *= k, model /= k,
+   model += b, model -= b) forward to the methods the correspondence renders them as - read off the source *)
+Theorem C04_spellings_from_source :
+  gen_linear_setitem = WSetLinear /\ gen_linear_delitem = WRemoveVariableKeyError
+  /\ gen_quadratic_setitem = WSetQuadratic /\ gen_quadratic_delitem = WRemoveInteractionKeyError
+  /\ gen_neighborhood_setitem = WSetQuadratic
+  /\ gen_bqm_imul = WScale /\ gen_bqm_itruediv = WScaleInverse /\ gen_bqm_iadd_number = WOffsetAdd /\ gen_bqm_isub_number = WOffsetSub
+  /\ gen_qm_imul = WScale /\ gen_qm_itruediv = WScaleInverse /\ gen_qm_iadd_number = WOffsetAdd /\ gen_qm_isub_number = WOffsetSub.
+Proof. exact spellings_forward_as_assumed. Qed.
+Print Assumptions C04_spellings_from_source.
 
 (* ---------- non-vacuity ---------- *)
 Definition ex_s0 : state :=
